@@ -22,12 +22,16 @@ type c11Params struct {
 	Dotu    bool
 	P       int
 	NoConnOps bool // the implementation does not ask to be told about connections
+	Auth      bool // the implementation authenticates (AuthOps); the connection holds an authentication fid
 }
 
 func (p c11Params) name() string {
 	n := fmt.Sprintf("disconnect prefix=%d parked=%v release=%v close=%s maxpend=%d dotu=%v", p.Prefix, p.Parked, p.Release, p.Close, p.Maxpend, p.Dotu)
 	if p.NoConnOps {
 		n += " implementation-without-ConnOps"
+	}
+	if p.Auth {
+		n += " implementation-with-AuthOps"
 	}
 	return n
 }
@@ -63,7 +67,12 @@ func c11Spec(p c11Params, mapMonitor bool) *VsSpec {
 		if mapMonitor {
 			vs.EnableHB()
 		}
-		s = newSess(SrvOpt{Msize: 256, Dotu: p.Dotu, Maxpend: p.Maxpend, NoConnOps: p.NoConnOps})
+		s = newSess(SrvOpt{Msize: 256, Dotu: p.Dotu, Maxpend: p.Maxpend, NoConnOps: p.NoConnOps, Auth: p.Auth})
+		if p.Auth {
+			// an authentication fid, and an attach made with it
+			s.rpcOK(&wire.Msg{Type: wire.Tauth, Tag: s.tag(), Afid: 50, Uname: "glenda", Aname: "", NUname: 7, HasNUname: p.Dotu}, wire.Rauth)
+			s.rpcOK(tattach(s.tag(), 51, 50, "glenda", 7, p.Dotu), wire.Rattach)
+		}
 		by = s.h.Connect()
 		ver := "9P2000"
 		if p.Dotu {
@@ -82,10 +91,20 @@ func c11Spec(p c11Params, mapMonitor bool) *VsSpec {
 		var parked []*wire.Msg
 		for i, k := range p.Parked {
 			tag := uint16(100 + i)
-			m := s.prepare(k, uint32(10+i), tag)
 			g := vs.NewSem(0)
 			s.gates = append(s.gates, g)
-			s.fs.Script[reqKey{0, tag, 0}] = &Action{Gate: g}
+			var m *wire.Msg
+			switch k {
+			case "authattach": // an attach naming the authentication fid, parked in the implementation
+				m = tattach(tag, uint32(10+i), 50, "glenda", 7, p.Dotu)
+				s.fs.Script[reqKey{0, tag, 0}] = &Action{Gate: g}
+			case "authread": // a read of the authentication fid, parked in the implementation's AuthRead
+				m = &wire.Msg{Type: wire.Tread, Tag: tag, Fid: 50, Offset: 0, Count: 8}
+				s.fs.AuthReadGate = g
+			default:
+				m = s.prepare(k, uint32(10+i), tag)
+				s.fs.Script[reqKey{0, tag, 0}] = &Action{Gate: g}
+			}
 			parked = append(parked, m)
 		}
 		if len(parked) > 0 {
@@ -489,6 +508,10 @@ func c11Scenarios(tier string) []Scenario {
 	// an implementation with FidDestroy but without ConnOpened / ConnClosed (the library's Fsrv is one)
 	for i, ps := range [][]string{{}, {"read"}, {"clunk"}} {
 		add(c11Params{Prefix: 5 + i, Parked: ps, Close: closes[i%3], Maxpend: i % 3, Dotu: i%2 == 0, P: 1, NoConnOps: true})
+	}
+	// an implementation that authenticates: the connection holds an authentication fid, used or not at the disconnect
+	for i, ps := range [][]string{{}, {"authattach"}, {"authread"}, {"authattach", "read"}, {"stat", "authread"}} {
+		add(c11Params{Prefix: 2 + i, Parked: ps, Close: closes[i%6], Maxpend: i % 3, Dotu: i%2 == 0, P: 2 - len(ps), Auth: true})
 	}
 	// every way of going away while the writer is blocked, with the unbuffered reply queue too
 	for i, cl := range []string{"slowconnclosed", "slowfiddestroy"} {
